@@ -42,8 +42,8 @@ def observer_bodies(facts):
     return out
 
 
-def r2_placeholders(rep, facts):
-    R = rep.rule('C16/R2', 'every observer of Table / InlineTable (inherent, TableLike, IntoIterator, Index) hides Item::None placeholders: it '
+def r2_placeholders(rep, facts, rid='C16/R2', rid3='C16/R3'):
+    R = rep.rule(rid, 'every observer of Table / InlineTable (inherent, TableLike, IntoIterator, Index) hides Item::None placeholders: it '
                  'tests the item itself (is_none / is_value / as_value ...) or delegates to an observer that does', floor=38)
     obs = observer_bodies(facts)
     by_def = {d: l for l, d in obs.items()}
@@ -77,7 +77,7 @@ def r2_placeholders(rep, facts):
         rep.check(R, label, ok[d], how, f'observer `{label}` neither tests for Item::None placeholders nor delegates to an observer that does: '
                   f'entries created by mutable indexing (`doc["x"]`) become visible through it', facts.loc(b))
     # R3: len shares the filter of iter
-    R3 = rep.rule('C16/R3', 'len() counts what iter() yields (calls it, or applies the same is_none filter)', floor=3)
+    R3 = rep.rule(rid3, 'len() counts what iter() yields (calls it, or applies the same is_none filter)', floor=3)
     for label in ('Table::len', 'InlineTable::len', 'TableLike(default)::len'):
         if label not in obs:
             rep.incomplete(R3, label, 'not found')
